@@ -120,12 +120,15 @@ var hazardMethod = map[string]string{
 // layoutsFor restricts the symlink layouts of a function (exclusion by
 // construction of a defect that is not C26's subject).
 var restrictLayouts = map[string][]string{
-	// io.Expand recurses through ExpandPath; an entry that resolves outside is
-	// clamped to the sandbox root, which contains that entry again: unbounded
-	// recursion (observed: no return after 4 minutes, Go stack grows until the
-	// process dies). A liveness defect, not an escape; with such layouts the
-	// call cannot be made in-process, so they are not generated for it.
-	"io.Expand": {"none", "inside", "dangling"},
+	// io.Expand recurses through ExpandPath, which applies the sandbox helper
+	// again to every directory entry; an entry the helper clamps to the
+	// sandbox root (a link that resolves outside; with the proposed fix
+	// C26-3 also a dangling link) is then expanded as the root, which contains
+	// that entry again: unbounded recursion (observed: no return after 20
+	// minutes of CPU; the Go stack grows until the process dies). A liveness
+	// defect, not an escape; with such layouts the call cannot be made
+	// in-process, so they are not generated for it.
+	"io.Expand": {"none", "inside"},
 }
 
 // systemReadOnly: functions that only read, and may therefore be given the one
